@@ -179,10 +179,13 @@ func flatToks(v reflect.Value) []int {
 func (b *Built) classifyErr(err error, ret *EvRet) {
 	ret.Detail = firstLine(err.Error())
 	ret.Lack = strings.Contains(err.Error(), "cannot be satisfied") || strings.Contains(err.Error(), "could not be satisfied")
-	if id, ok := b.Env.errs[err]; ok {
-		fe := err.(*FailErr)
-		ret.ErrID = id
-		if fe.Fn == 0 {
+	if fe, ok := err.(*FailErr); ok && fe == nil {
+		ret.Kind, ret.ErrID = "nilerr", -1
+		return
+	}
+	if info, ok := b.Env.errs[err]; ok {
+		ret.ErrID = info.id
+		if info.fn == 0 {
 			ret.Kind = "targeterr"
 		} else {
 			ret.Kind = "converr"
@@ -190,10 +193,18 @@ func (b *Built) classifyErr(err error, ret *EvRet) {
 		return
 	}
 	var fe *FailErr
-	if errors.As(err, &fe) {
+	if errors.As(err, &fe) && fe != nil {
 		ret.Kind = "wrappederr"
 		ret.ErrID = fe.ID
 		return
+	}
+	// an error value a body returned, but repackaged by the library (message preserved)
+	for e, info := range b.Env.errs {
+		if _, isFail := e.(*FailErr); !isFail && (errors.Is(err, e) || err.Error() == e.Error()) {
+			ret.Kind = "wrappederr"
+			ret.ErrID = info.id
+			return
+		}
 	}
 	var ua *am.ErrArgumentUnsatisfied
 	if errors.As(err, &ua) {
